@@ -27,10 +27,30 @@ type c14Case struct {
 	Files    []int       `json:"files"`  // per node: 0 root, 1 extra1, 2 extra2
 	NodeMask int         `json:"node_mask"`
 	PropMask int         `json:"prop_mask"`
-	Kind     string      `json:"kind,omitempty"` // mode kinds: which constraint kind produces the results and traces
+	Kind     string      `json:"kind,omitempty"`     // mode kinds: which constraint kind produces the results and traces
+	FileSet  int         `json:"file_set,omitempty"` // which spelling of the three file names (axis U); 0 = plain file URIs
 }
 
 var c14Files = []string{"file:///root.raml", "file:///lib/extra1.raml", "file:///lib/extra2.raml"}
+
+// c14FileSets: the same three roles (root file, two included files) in spellings a URI library would rewrite if the
+// strings took a detour through it: blanks, non-ASCII, already-escaped octets, dot segments, upper-case scheme and
+// host, query and fragment, relative references, Windows paths. The report must carry them verbatim.
+var c14FileSets = [][]string{
+	c14Files,
+	{"file:///my api/root file.raml", "file:///work/shared types/lib.raml", "file:///lib/josé/größe.raml"},
+	{"FILE:///Root.raml", "file:///api/../common/./lib.raml", "HTTP://EXAMPLE.org:80/a%20b/%7Euser/lib.raml"},
+	{"root.raml", "types/user.raml", "../common/lib.raml"},
+	{"file:///C:/api/root.raml", "C:\\api\\types\\user.raml", "file://./test/lib.raml?rev=1&x=a+b#/types/0"},
+	{"urn:uuid:6e8bc430-9c3a-11d9-9669-0800200c9a66", "jar:file:/libs/x.jar!/lib.raml", "file:///a/%2e%2e/b/%E6%97%A5.raml"},
+}
+
+func c14FilesOf(cs c14Case) []string {
+	if cs.FileSet > 0 && cs.FileSet < len(c14FileSets) {
+		return c14FileSets[cs.FileSet]
+	}
+	return c14Files
+}
 
 func c14Profile() string {
 	return EmitYAML(M("profile", "c14", "prefixes", M("ex", EX),
@@ -121,14 +141,14 @@ func c14Build(cs c14Case) (*Graph, string, map[string]*c14Loc) {
 			sm.P(smNS+"lexical", Ref(e.ID))
 			loc := &c14Loc{Range: cs.Ranges[i]}
 			if cs.Mode == "full" {
-				loc.URI, loc.HasURI = c14Files[cs.Files[i]], true
+				loc.URI, loc.HasURI = c14FilesOf(cs)[cs.Files[i]], true
 			}
 			exp[id(n)] = loc
 		}
 	}
 	if cs.Mode == "full" {
 		busi := g.Add(EX+"BaseUnitSourceInformation", docNS+"BaseUnitSourceInformation")
-		busi.P(docNS+"rootLocation", c14Files[0])
+		busi.P(docNS+"rootLocation", c14FilesOf(cs)[0])
 		for f := 1; f <= 2; f++ {
 			var elems []any
 			for i, n := range c14Nodes {
@@ -140,7 +160,7 @@ func c14Build(cs c14Case) (*Graph, string, map[string]*c14Loc) {
 				continue
 			}
 			li := g.Add(fmt.Sprintf("%sBaseUnitSourceInformation/location_%d", EX, f-1), docNS+"LocationInformation")
-			li.P(docNS+"location", c14Files[f])
+			li.P(docNS+"location", c14FilesOf(cs)[f])
 			li.P(docNS+"elements", elems...)
 			busi.P(docNS+"additionalLocations", Ref(li.ID))
 		}
@@ -205,6 +225,12 @@ func c14GenCases(tier string, emit func(c14Case)) {
 		}
 		emit(c14Case{Mode: "full", Ranges: def, Files: fs, NodeMask: 63, PropMask: 0})
 		emit(c14Case{Mode: "full", Ranges: def, Files: fs, NodeMask: 63, PropMask: 21})
+	}
+	// axis U: spellings of the file names x a few node-to-file assignments
+	for set := 1; set < len(c14FileSets); set++ {
+		for _, fs := range [][]int{c14DefaultFiles, {0, 1, 2, 0, 1, 2}, {2, 2, 1, 1, 0, 0}, {1, 1, 1, 1, 1, 1}} {
+			emit(c14Case{Mode: "full", Ranges: def, Files: fs, NodeMask: 63, PropMask: 0, FileSet: set})
+		}
 	}
 	// axis E: which nodes have node-level / property-level entries
 	for nm := 0; nm < 64; nm++ {
@@ -359,7 +385,7 @@ func c14Walk(c *Ctx, cs c14Case, report string, exp map[string]*c14Loc) (nres, w
 func init() {
 	Register(Meta{
 		ID: "C14", Level: "exploration",
-		Rule:        "AMF-shaped source maps generated for a 6-node skeleton (2 nodes failing at top level, 1 failing through a nested child so a sub-result and its trace carry the child's location, passing nodes): axis R = every 4-tuple (start line/column, end line/column) over a magnitude alphabet (0 .. 2^31 .. 2^53+1 [.. 10^20]); axis F = every assignment of nodes to {root file, 2 additional files} (1 or several additional locations, 1 or several elements each); axis E = every subset of nodes having a node-level entry x property-level-only entries, with and without BaseUnitSourceInformation; no source maps; size axis: 1..70 failing nodes with one source map each and counts around every power of two up to 1024 (4096); axis K = every constraint kind of the C01 atom catalogue (plain, negated, as a condition) plus uniqueValues on a path, nested/atLeast/atMost, alternative/inverse/sequence paths, custom Rego in three forms, and/or/not/if-then-else, each on its own small graph with lexical entries on two thirds of the nodes (some declared in an additional file). Oracle: location present iff node-level entry, numbers equal as decimal strings, uri = declaring file; and the report equals the source-map-free report once all location members are deleted. Non-trivial = document where at least one reported node has a location and one does not, or any axis-R/F case with locations; distinct by document text.",
+		Rule:        "AMF-shaped source maps generated for a 6-node skeleton (2 nodes failing at top level, 1 failing through a nested child so a sub-result and its trace carry the child's location, passing nodes): axis R = every 4-tuple (start line/column, end line/column) over a magnitude alphabet (0 .. 2^31 .. 2^53+1 [.. 10^20]); axis F = every assignment of nodes to {root file, 2 additional files} (1 or several additional locations, 1 or several elements each); axis U = 5 further spellings of the three file names (blanks, non-ASCII, escaped octets, dot segments, upper-case scheme/host, query and fragment, relative references, Windows paths, urn:/jar: schemes) x 4 assignments, reported verbatim; axis E = every subset of nodes having a node-level entry x property-level-only entries, with and without BaseUnitSourceInformation; no source maps; size axis: 1..70 failing nodes with one source map each and counts around every power of two up to 1024 (4096); axis K = every constraint kind of the C01 atom catalogue (plain, negated, as a condition) plus uniqueValues on a path, nested/atLeast/atMost, alternative/inverse/sequence paths, custom Rego in three forms, and/or/not/if-then-else, each on its own small graph with lexical entries on two thirds of the nodes (some declared in an additional file). Oracle: location present iff node-level entry, numbers equal as decimal strings, uri = declaring file; and the report equals the source-map-free report once all location members are deleted. Non-trivial = document where at least one reported node has a location and one does not, or any axis-R/F case with locations; distinct by document text.",
 		Assumptions: []string{"one lexical entry per node (AMF emits one)"},
 	}, func(tier string, emit func(c14Case)) { c14GenCases(tier, emit) }, c14Run)
 }
